@@ -26,6 +26,17 @@ def _fork2(st, cond):
     """-> [(state, True/False)] for feasible branches."""
     if cond.is_const:
         return [(st, bool(cond.val))]
+    from . import execmir as _em
+    if _em.PRUNER is not None:
+        ft, ff = _em.feasible(st, cond), _em.feasible(st, tm.not_(cond))
+        if ft and not ff:
+            st.assume(cond)
+            return [(st, True)]
+        if ff and not ft:
+            st.assume(tm.not_(cond))
+            return [(st, False)]
+        if not ft and not ff:
+            return []
     s2 = st.fork()
     st.assume(cond)
     s2.assume(tm.not_(cond))
@@ -540,3 +551,214 @@ def _struct_eq(a, b):
 def m_option_eq(ex, m, args, tys, st, fn):
     e = _struct_eq(ex.deref(args[0]), ex.deref(args[1]))
     return [(st, e if m.group(1) == "eq" else tm.not_(e))]
+
+
+# ---- vec![..] lowering: Box::<[T; N]>::new_uninit + write through the raw pointer + box_assume_init_into_vec_unsafe
+@model(r"^Box::<\[.*; \d+\]>::new_uninit$")
+def m_box_new_uninit(ex, m, args, tys, st, fn):
+    from .execmir import Cell
+    # Box(Unique(NonNull(ptr))) ; *ptr = MaybeUninit { uninit: (), value: ManuallyDrop(MaybeDangling([T; N])) }
+    cell = Cell(Agg([Agg([]), Agg([Agg([Agg([])])])]))
+    return [(st, Agg([Agg([Ref(cell)])]))]
+
+
+@model(r"^(?:std|alloc)::boxed::box_assume_init_into_vec_unsafe::<.*>$")
+def m_box_into_vec(ex, m, args, tys, st, fn):
+    r = args[0].fields[0].fields[0]
+    arr = r.cell.v.fields[1].fields[0].fields[0]
+    return [(st, Agg(list(arr.fields)))]
+
+
+@model(r"^Vec::<.*>::new$")
+def m_vec_new(ex, m, args, tys, st, fn):
+    return [(st, Agg([]))]
+
+
+@model(r"^Vec::<.*>::is_empty$")
+def m_vec_is_empty(ex, m, args, tys, st, fn):
+    v = ex.deref(args[0])
+    return [(st, tm.B(len(v.fields) == 0))]
+
+
+@model(r"^<Vec<.*> as (?:std::ops::)?Index<usize>>::index$")
+def m_vec_index(ex, m, args, tys, st, fn):
+    v = ex.deref(args[0])
+    i = args[1]
+    if not isinstance(v, Agg) or not i.is_const:
+        raise Unsupported("Vec[i] with symbolic index or unmodelled vector")
+    if i.val >= len(v.fields):
+        ex.obligations.append({"kind": "panic", "msg": "index out of bounds (Vec)", "pc": list(st.pc), "fn": fn.path})
+        return []
+    return [(st, Ref(args[0].cell, tuple(args[0].path) + (int(i.val),)))]
+
+
+@model(r"^core::slice::<impl \[.*\]>::reverse$")
+def m_slice_reverse(ex, m, args, tys, st, fn):
+    v = ex.deref(args[0])
+    ex.write_ref(args[0], Agg(list(reversed(v.fields))))
+    return [(st, Agg([]))]
+
+
+@model(r"^core::slice::<impl \[.*\]>::get::<usize>$")
+def m_slice_get(ex, m, args, tys, st, fn):
+    v = ex.deref(args[0])
+    i = args[1]
+    if not isinstance(v, Agg) or not i.is_const:
+        raise Unsupported("slice.get(i) with symbolic index")
+    if i.val >= len(v.fields):
+        return [(st, Enum(0, {}, "Option"))]
+    return [(st, Enum(1, {1: [Ref(args[0].cell, tuple(args[0].path) + (int(i.val),))]}, "Option"))]
+
+
+@model(r"^core::slice::<impl \[.*\]>::last$")
+def m_slice_last(ex, m, args, tys, st, fn):
+    v = ex.deref(args[0])
+    if not v.fields:
+        return [(st, Enum(0, {}, "Option"))]
+    return [(st, Enum(1, {1: [Ref(args[0].cell, tuple(args[0].path) + (len(v.fields) - 1,))]}, "Option"))]
+
+
+@model(r"^Option::<&.*>::copied$")
+def m_option_copied(ex, m, args, tys, st, fn):
+    o = args[0]
+    if not o.tag.is_const:
+        raise Unsupported("Option::copied with symbolic tag")
+    if o.tag.val == 0:
+        return [(st, Enum(0, {}, "Option"))]
+    return [(st, Enum(1, {1: [ex.deref(o.pay[1][0])]}, "Option"))]
+
+
+# ---- VecDeque<T> with a concrete length per path: Agg([...]) like Vec
+@model(r"^<VecDeque<.*> as From<\[.*; \d+\]>>::from$")
+def m_deque_from(ex, m, args, tys, st, fn):
+    return [(st, Agg(list(args[0].fields)))]
+
+
+@model(r"^VecDeque::<.*>::len$")
+def m_deque_len(ex, m, args, tys, st, fn):
+    return [(st, I(len(ex.deref(args[0]).fields)))]
+
+
+@model(r"^VecDeque::<.*>::is_empty$")
+def m_deque_is_empty(ex, m, args, tys, st, fn):
+    return [(st, tm.B(len(ex.deref(args[0]).fields) == 0))]
+
+
+@model(r"^VecDeque::<.*>::push_back$")
+def m_deque_push_back(ex, m, args, tys, st, fn):
+    v = ex.deref(args[0])
+    ex.write_ref(args[0], Agg(list(v.fields) + [args[1]]))
+    return [(st, Agg([]))]
+
+
+@model(r"^VecDeque::<.*>::pop_front$")
+def m_deque_pop_front(ex, m, args, tys, st, fn):
+    v = ex.deref(args[0])
+    if not v.fields:
+        return [(st, Enum(0, {}, "Option"))]
+    ex.write_ref(args[0], Agg(list(v.fields[1:])))
+    return [(st, Enum(1, {1: [v.fields[0]]}, "Option"))]
+
+
+@model(r"^VecDeque::<.*>::front$")
+def m_deque_front(ex, m, args, tys, st, fn):
+    v = ex.deref(args[0])
+    if not v.fields:
+        return [(st, Enum(0, {}, "Option"))]
+    return [(st, Enum(1, {1: [Ref(args[0].cell, tuple(args[0].path) + (0,))]}, "Option"))]
+
+
+@model(r"^<&VecDeque<.*> as (?:std::iter::)?IntoIterator>::into_iter$")
+def m_deque_into_iter(ex, m, args, tys, st, fn):
+    return [(st, Agg([args[0], I(0)]))]
+
+
+@model(r"^<(?:std::collections::)?vec_deque::Iter<'_, .*> as (?:std::iter::)?Iterator>::next$")
+def m_deque_iter_next(ex, m, args, tys, st, fn):
+    it = ex.deref(args[0])
+    r, i = it.fields
+    v = ex.deref(r)
+    if i.val >= len(v.fields):
+        return [(st, Enum(0, {}, "Option"))]
+    ex.write_ref(args[0], Agg([r, I(i.val + 1)]))
+    return [(st, Enum(1, {1: [Ref(r.cell, tuple(r.path) + (int(i.val),))]}, "Option"))]
+
+
+# ---- RangeInclusive<usize> with constant bounds (loop counter)
+@model(r"^(?:std::ops::)?RangeInclusive::<usize>::new$")
+def m_range_incl_new(ex, m, args, tys, st, fn):
+    return [(st, Agg([args[0], args[1], tm.FALSE]))]
+
+
+@model(r"^<(?:std::ops::)?RangeInclusive<usize> as (?:std::iter::)?IntoIterator>::into_iter$")
+def m_range_incl_into_iter(ex, m, args, tys, st, fn):
+    return [(st, args[0])]
+
+
+@model(r"^<(?:std::ops::)?RangeInclusive<usize> as (?:std::iter::)?Iterator>::next$")
+def m_range_incl_next(ex, m, args, tys, st, fn):
+    rng = ex.deref(args[0])
+    start, end, exhausted = rng.fields
+    if not (start.is_const and end.is_const and exhausted.is_const):
+        raise Unsupported("RangeInclusive with symbolic bounds")
+    if exhausted.val or start.val > end.val:
+        return [(st, Enum(0, {}, "Option"))]
+    if start.val == end.val:
+        ex.write_ref(args[0], Agg([start, end, tm.TRUE]))
+    else:
+        ex.write_ref(args[0], Agg([I(start.val + 1), end, tm.FALSE]))
+    return [(st, Enum(1, {1: [start]}, "Option"))]
+
+
+# ---- [T; N]::into_iter() (by value) with a constant array
+@model(r"^<\[.*; \d+\] as (?:std::iter::)?IntoIterator>::into_iter$")
+def m_array_into_iter(ex, m, args, tys, st, fn):
+    return [(st, Agg([Agg(list(args[0].fields)), I(0)]))]
+
+
+@model(r"^<(?:std|core)::array::IntoIter<.*, \d+> as (?:std::iter::)?Iterator>::next$")
+def m_array_iter_next(ex, m, args, tys, st, fn):
+    it = ex.deref(args[0])
+    arr, i = it.fields
+    if i.val >= len(arr.fields):
+        return [(st, Enum(0, {}, "Option"))]
+    ex.write_ref(args[0], Agg([arr, I(i.val + 1)]))
+    return [(st, Enum(1, {1: [arr.fields[int(i.val)]]}, "Option"))]
+
+
+@model(r"^<(i8|i16|i32|i64|i128|isize|u8|u16|u32|u64|u128|usize) as (?:std::default::)?Default>::default$")
+def m_int_default(ex, m, args, tys, st, fn):
+    return [(st, I(0))]
+
+
+@model(r"^<bool as (?:std::default::)?Default>::default$")
+def m_bool_default(ex, m, args, tys, st, fn):
+    return [(st, tm.FALSE)]
+
+
+@model(r"^<\[(.*); (\d+)\] as (?:std::default::)?Default>::default$")
+def m_array_default(ex, m, args, tys, st, fn):
+    ty, n = m.group(1), int(m.group(2))
+    cands = ex.prog.find_fn("default", self_ty=ty, trait="Default")
+    out = []
+    if ty in INT_TYPES:
+        return [(st, Agg([I(0) for _ in range(n)]))]
+    if not cands:
+        raise Unsupported("Default for [" + ty + "; N]")
+    for _ in range(n):
+        rs = ex.exec_fn(cands[0], [], st, 1)
+        if len(rs) != 1:
+            raise Unsupported("forking Default::default")
+        st, v = rs[0]
+        out.append(v)
+    return [(st, Agg(out))]
+
+
+@model(r"^Option::<&(?:mut )?.*>::as_deref(?:_mut)?$")
+def m_option_as_deref(ex, m, args, tys, st, fn):
+    o = ex.deref(args[0])
+    if not o.tag.is_const:
+        raise Unsupported("Option::as_deref with symbolic tag")
+    if o.tag.val == 0:
+        return [(st, Enum(0, {}, "Option"))]
+    return [(st, Enum(1, {1: [o.pay[1][0]]}, "Option"))]
